@@ -23,13 +23,33 @@ type verifSystem struct {
 	img  []byte
 }
 
+// verifWriter: an io.Writer that records what it is given (the serial port's peer)
+type verifWriter struct {
+	log   []byte
+	calls int
+}
+
+func (w *verifWriter) Write(p []byte) (int, error) {
+	w.calls++
+	w.log = append(w.log, p...)
+	return len(p), nil
+}
+
 func newVerifSystem(cartType, romCode, ramCode uint8) *verifSystem {
+	return newVerifSystemW(cartType, romCode, ramCode, nil)
+}
+
+func newVerifSystemW(cartType, romCode, ramCode uint8, w *verifWriter) *verifSystem {
 	s := &verifSystem{}
 	s.intr = interrupts.New()
 	s.o = oam.New()
 	s.a = audio.New(nil, nil)
 	s.p = ppu.New(s.intr, s.o, false)
-	s.s = serial.New(nil)
+	if w != nil {
+		s.s = serial.New(w)
+	} else {
+		s.s = serial.New(nil)
+	}
 	s.t = timer.New()
 	s.c = controller.New()
 	s.img = verifImage(cartType, romCode, ramCode)
